@@ -129,23 +129,53 @@ Proof.
 Qed.
 
 (* ------------------------------------------------------------------ the order on logs *)
+(** [l'] was reached from [l] by appends: the ghost history grew at the end, issued cursors are
+    still issued, the base only moved forward, and a cursor that became stale on the way points
+    at or before the new base (what lay between is the evicted backlog) *)
 Definition log_le (l l' : log T) : Prop :=
   forall all, WF size l all ->
-    exists xs, WF size l' (all ++ xs) /\ (forall c, Issued l c -> Issued l' c).
+    exists xs, WF size l' (all ++ xs) /\ (forall c, Issued l c -> Issued l' c) /\
+               base_of l <= base_of l' /\
+               (forall c, Issued l c -> stale l c = false -> stale l' c = true -> snd c <= base_of l').
 
 Lemma log_le_refl l : log_le l l.
-Proof. intros all W. exists []. rewrite app_nil_r. auto. Qed.
+Proof.
+  intros all W. exists []. rewrite app_nil_r. split; [exact W|]. split; [auto|]. split; [lia|].
+  intros c _ H1 H2. congruence.
+Qed.
 
 Lemma log_le_trans a b c : log_le a b -> log_le b c -> log_le a c.
 Proof.
-  intros H1 H2 all W. destruct (H1 all W) as (xs & W1 & I1). destruct (H2 _ W1) as (ys & W2 & I2).
-  exists (xs ++ ys). rewrite app_assoc. split; [exact W2|]. intros cu Hc. apply I2, I1, Hc.
+  intros H1 H2 all W. destruct (H1 all W) as (xs & W1 & I1 & B1 & S1). destruct (H2 _ W1) as (ys & W2 & I2 & B2 & S2).
+  exists (xs ++ ys). rewrite app_assoc. split; [exact W2|]. split; [intros cu Hc; apply I2, I1, Hc|].
+  split; [lia|]. intros cu Hi Ha Hc. destruct (stale b cu) eqn:Eb.
+  - specialize (S1 cu Hi Ha Eb). lia.
+  - apply (S2 cu (I1 _ Hi) Eb Hc).
 Qed.
 
 Lemma log_le_append (l l' : log T) x r : append size l x = Ok (l', r) -> log_le l l'.
 Proof.
   intros H all W. destruct (append_ok_spec l l' all x r W H) as (_ & W' & Hsh & _).
-  exists [x]. split; [exact W'|]. intros c Hc. eapply issued_append; eassumption.
+  exists [x]. split; [exact W'|]. split; [intros c Hc; eapply issued_append; eassumption|].
+  pose proof W as [Ws _]. pose proof W' as [Ws' _].
+  pose proof (wfs_end size l all Ws) as He. pose proof (wfs_end size l' _ Ws') as He'.
+  rewrite lenN_app, lenN_cons, lenN_nil in He'.
+  destruct Hsh as [i a E E' Hh Ht | f E' Hf Hh Ht | s0 rest f E E' Hf Hh Ht].
+  - assert (Hb : base_of l' = base_of l).
+    { unfold base_of. rewrite E, E'. destruct i; reflexivity. }
+    split; [lia|]. intros c _ H1 H2. unfold stale in *. rewrite Hh in H2. congruence.
+  - assert (Hb : base_of l' = base_of l).
+    { unfold base_of. rewrite E'. destruct (segs l) eqn:Es; [now destruct (wf_ne size l all Ws)|reflexivity]. }
+    split; [lia|]. intros c _ H1 H2. unfold stale in *. rewrite Hh in H2. congruence.
+  - assert (Hb : base_of l' = base_of l + seg_len s0).
+    { rewrite E, lenD_cons in He. rewrite E', lenD_app, lenD_cons, lenD_nil in He'.
+      unfold seg_len at 1 in He'. cbn [pushed s_data] in He'. rewrite Hf in He'.
+      rewrite lenN_app, lenN_cons, !lenN_nil in He'. lia. }
+    split; [lia|]. intros c Hi H1 H2. unfold stale in *. rewrite Hh in H2.
+    destruct Hi as [Hs | (Hhd & _ & s & Hn & _ & Hhi)]; [lia|].
+    replace (N.to_nat (fst c - head l)) with O in Hn by lia.
+    rewrite E in Hn. cbn [nth_error] in Hn. injection Hn as <-.
+    assert (s_abs s0 = base_of l) by (unfold base_of; now rewrite E). lia.
 Qed.
 
 Lemma log_le_end (l l' : log T) all : log_le l l' -> WF size l all -> end_of l <= end_of l'.
